@@ -397,13 +397,15 @@ def callFn (name : String) (fi : Plan) (c : Ref) (args : List (Except EErr (MVal
     | .nodes [] => .ok none
     | .nodes (r :: _) => .ok (some (stringValue d r))
     | _ => other
+  -- after the repair the second argument of `starts-with`/`ends-with`/`contains` is read like the
+  -- first: a string as it is, a node-set as the string-value of its first node ("" when empty),
+  -- anything else (number, boolean) raises "argument type must be string"
   let secondArg (m : String) : Except EErr (MVal F) := do
-    match ← arg 1 with
-    | .str n =>
-      if name == "starts-with" then .ok (.bool (Spec.fnStartsWith m n))
-      else if name == "ends-with" then .ok (.bool (Spec.fnEndsWith m n))
-      else .ok (.bool (Spec.fnContains m n))
-    | _ => .error (.raised name)
+    let v2 ← arg 1
+    let n := (← strOrFirst v2 (.error (.raised name))).getD ""
+    if name == "starts-with" then .ok (.bool (Spec.fnStartsWith m n))
+    else if name == "ends-with" then .ok (.bool (Spec.fnEndsWith m n))
+    else .ok (.bool (Spec.fnContains m n))
   match name with
   | "true" => .ok (.bool true)
   | "false" => .ok (.bool false)
@@ -498,7 +500,11 @@ def callFn (name : String) (fi : Plan) (c : Ref) (args : List (Except EErr (MVal
     match ← arg 0 with
     | .bool b => .ok (.bool (!b))
     | .nodes l => .ok (.bool l.isEmpty)
-    | _ => .ok (.bool false)
+    | v => do
+      -- after the repair: `default: return !asBool(t, v)` (a number or a string: not(boolean(v));
+      -- the `int` of `round()` makes `asBool` panic with "unexpected type")
+      let b ← asBoolM v
+      .ok (.bool (!b))
   | "concat" => do
     let parts ← args.mapM (fun a => do
       match ← a with
